@@ -20,6 +20,7 @@ from pathlib import Path
 from harness.common import VERIF, Ctx, cbool, clist, coq_make, cstr, parallel_workers, run_worker
 from harness.translators import universe as tr
 
+CUSTOM = {"deadlock"}
 IDENT = re.compile(r"[A-Za-z_][A-Za-z0-9_]*\Z")
 KIND = {"governor": "KGovernor", "skypix": "KSkyPix", "dimension": "KDimension", "combination": "KCombination"}
 
@@ -186,7 +187,7 @@ def oracle_pairs(ctx: Ctx, sp: Spec, tag: str, res):
         ctx.oracle_fail(f"operators:{what[0].split(':')[0]}", {"universe": tag, "a": res["table"][i], "b": res["table"][j], "what": what},
                         "comparison operators / methods of DimensionGroup disagree with each other")
     nfail = 0
-    for i, j, ui, ii, le, eq, heq, dj in res["pairs"]:
+    for i, j, ui, ii, le, eq, heq, dj in sorted(res["pairs"], key=lambda r: len(tbl[r[0]]) + len(tbl[r[1]])):
         A, B = tbl[i], tbl[j]
         ctx.count()
         rep = {"universe": tag, "op": "pair", "a": res["table"][i], "b": res["table"][j]}
@@ -300,10 +301,13 @@ def run_universe(ctx: Ctx, ident: str, uvar: str, results: list, acc: Acc):
     if sp is None:
         return
     acc.names.update(sp.order)
-    dom = {n for n, k in sp.kind.items() if k != "combination"}      # the property speaks about dimension names
+    custom = ident in CUSTOM     # hand-made universe: outside the statement's quantifier, model comparison only
+    dom = set() if custom else {n for n, k in sp.kind.items() if k != "combination"}      # the property speaks about dimension names
     for o in res0["groups"]:
         ctx.count()
-        in_domain = all(n in dom for n in o["in"])
+        in_domain = all(n in dom for n in o["in"]) and not custom
+        if custom:
+            ctx.hist("custom_universe_lookup", "did not return" if (not o.get("err") and o["lookup"] is None) else "returned")
         if o.get("err"):
             ctx.hist("group_outcome", o["err"])
             if in_domain:
@@ -320,7 +324,7 @@ def run_universe(ctx: Ctx, ident: str, uvar: str, results: list, acc: Acc):
                       {"universe": ident, "in": o["in"], "observed": {k: o.get(k) for k in ("err", "names", "required", "implied", "lookup")}}))
     for o in res0.get("conform", []):
         ctx.count()
-        if not o.get("err"):
+        if not o.get("err") and not custom:
             oracle_group(ctx, sp, ident, dict(o, spell=[] if o.get("same_as_minimal", True) else ["minimal_group"]), kind="conform-str")
             # conform("x") is the least group holding x's own dimensions
             want = sp.lfp(frozenset(sp.req[o["in"]] + sp.imp[o["in"]] + ([o["in"]] if sp.kind[o["in"]] != "combination" else [])))
@@ -331,9 +335,10 @@ def run_universe(ctx: Ctx, ident: str, uvar: str, results: list, acc: Acc):
     for res in results:
         if "universe_error" in res or not res.get("pairs"):
             continue
-        oracle_pairs(ctx, sp, ident, res)
+        if not custom:
+            oracle_pairs(ctx, sp, ident, res)
         tbl = res["table"]
-        for i, j, *_ in res["pairs"][:: max(1, len(res["pairs"]) // 20000)]:
+        for i, j, *_ in ([] if custom else res["pairs"][:: max(1, len(res["pairs"]) // 20000)]):
             A, B = set(tbl[i]), set(tbl[j])
             if not (A <= B or B <= A):
                 ctx.nontrivial({"u": ident, "a": tbl[i], "b": tbl[j]})
@@ -433,6 +438,10 @@ def _main(ctx: Ctx, srcs, quick: bool, model: bool = True):
         else:
             pl = payloads_for(ctx, ident, path, exhaustive=True, nrandom=1500, pairs="all", triples=20000, slices=2, extra_subsets=extra)
         jobs.append((ident, uvar, pl))
+    if model:
+        for ident_raw, path in tr.custom_sources():
+            jobs.append((ident_raw[4:], f"u_{ident_raw[4:]}",
+                         payloads_for(ctx, ident_raw[4:], path, exhaustive=True, nrandom=10, pairs=300, triples=0, slices=0)))
     flat = [p for _, _, pl in jobs for p in pl]
     ctx.log(f"running {len(flat)} implementation workers")
     outs = parallel_workers("c12_impl", "observe", flat, timeout=900)
